@@ -38,6 +38,9 @@ class FakeSocketServerModule:
 
             def serve_forever(self):
                 rec.append(("serve_forever",))
+                cb = getattr(rec, "on_serve", None)
+                if cb is not None:
+                    cb(self)
 
             def server_close(self):
                 rec.append(("close",))
@@ -59,6 +62,8 @@ class DetRandom:
 
     def choice(self, seq):
         self.n += 1
+        if self.n > 20000:
+            raise RuntimeError("PIN generator does not terminate")
         return seq[(self.n * 7) % len(seq)]
 
 
